@@ -55,14 +55,16 @@ _LOOP = {
 }
 _LOOP_PARTIAL = {
     "C04": "the traceback conjunct cannot be expressed in the model; it is checked on the implementation by the harness (tb_ok). Entries with a retry loop: Props/C04; a Policy without a retry component (single attempt): Props/C04NR",
-    "C12": "call()/execute() agreement is proved for Retry (call_execute_agree) under: no attempt hooks, the abort "
-           "predicate does not raise, callbacks other than the operation do not raise AbortRetryError themselves, the "
-           "operation does not raise the library's own RuntimeError/CircuitOpenError objects; and for a Policy WITH a "
-           "retry component (pcall_pexecute_agree) under the further hypotheses that exclude the known findings F11/F12 "
-           "and a classifier that is not a function of the exception. The retry-less Policy pair is not proved (F13 "
-           "lives there). Sync/async and Retry/Policy/RetryPolicy/@retry/context agreement is by construction of the "
-           "model (one model function per entry; async_irrelevant) and carried by the correspondence + the entry-point "
-           "twins on the implementation",
+    "C12": "call()/execute() agreement is proved for Retry (call_execute_agree), for a Policy with a retry component "
+           "(pcall_pexecute_agree) and for the retry-less Policy (pcall_pexecute_agree_nr), each under explicit "
+           "hypotheses on the run's own log: no attempt hooks (retry-less: no end hook), the abort predicate does not "
+           "raise, callbacks other than the operation do not raise AbortRetryError themselves, and — at policy level — "
+           "exactly what excludes the known findings F11/F12/F13, a breaker-event hook raising a BaseException-only "
+           "kind, and a classifier that is not a function of the exception. Policy-without-breaker = Retry "
+           "(pcall_eq_call, pexecute_eq_execute: exact equations, one more classify exchange when an Exception is "
+           "raised). Sync/async: async_irrelevant, async_irrelevant_policy (isAsync matters only when CancelledError "
+           "is raised). RetryPolicy/@retry/context forms are one model function with Policy; that the code's wrappers "
+           "forward faithfully is carried by the correspondence and the entry-point twins on the implementation",
     "C02": "wall-clock independence is by construction of the model (it has no wall-clock input); carried by the "
            "correspondence, whose non-monotonic clock shim jumps by hours at every read",
 }
